@@ -548,6 +548,23 @@ func loopBlocks(b *ssa.BasicBlock) map[*ssa.BasicBlock]bool {
 	return out
 }
 
+// isLoopExitFact: the fact was established by the edge that leaves a loop from its header
+// (the other edge of the same test stays in the loop).
+func isLoopExitFact(f Fact) bool {
+	if f.If == nil {
+		return false
+	}
+	hb := f.If.Block()
+	if f.Succ < 0 || f.Succ >= len(hb.Succs) {
+		return false
+	}
+	lb := loopBlocks(hb)
+	if !lb[hb] {
+		return false
+	}
+	return !lb[hb.Succs[f.Succ]] && lb[hb.Succs[1-f.Succ]]
+}
+
 func r4C15(c *Ctx) {
 	p := c.Prog
 	c.Rule("R15.7", "annotations / labels written to a custom resource do not alias the live object's maps", 2)
@@ -2260,6 +2277,10 @@ func r5C20(c *Ctx) {
 				}
 				n++
 				for _, f := range FactsFor(fn).At(b) {
+					if isLoopExitFact(f) {
+						// what holds once a loop over another field has run out is no guard: the loop always ends
+						continue
+					}
 					for _, side := range []*Term{f.L, f.R} {
 						for k := range srcFieldsOf(side) {
 							if !from[k] {
